@@ -142,6 +142,8 @@ func kbDigest(seed int64, name string) []byte {
 		return append([]byte{0x01}, hashBytes(seed, "kb-digest-long0", 127)...)
 	case "dlongf":
 		return append([]byte{0xff}, hashBytes(seed, "kb-digest-longf", 127)...)
+	case "dhuge": // a message of several kilobytes (Ed25519 signs messages, not digests)
+		return hashBytes(seed, "kb-digest-huge", 5000)
 	}
 	return hashBytes(seed, "kb-digest-"+name, 48)
 }
@@ -264,6 +266,11 @@ func execKStress(c *ctx, in ev) []ev {
 				r, sv, err := ecdsa.BlindKeySignWithContext(cryptorand.Reader, sk, cb.bk, digest, append([]byte{}, cb.ctx...))
 				if err != nil || !stdecdsa.Verify(&stdecdsa.PublicKey{Curve: curve, X: cb.refX, Y: cb.rY}, digest, r, sv) {
 					wrong("blind signature of combination %d does not verify under the blinded key", k%len(combos))
+					return
+				}
+				// ... nor under this package's own Verify, called by all goroutines at once
+				if !ecdsa.Verify(&ecdsa.PublicKey{Curve: curve, X: cb.refX, Y: cb.rY}, digest, r, sv) {
+					wrong("this package's Verify rejects the valid blind signature of combination %d", k%len(combos))
 				}
 			}
 			calls = 3
@@ -577,6 +584,14 @@ func execKeyBlindEd(c *ctx, in ev) []ev {
 			var sig []byte
 			e := ev{"op": op, "sk": skn, "d": dname, "b": "", "ctx": "", "ok": false, "sig": "", "panic": ""}
 			e["panic"] = guard(func() {
+				// the caller has used what the key handed out before: it appended to the seed it was given, and wiped the
+				// public key it was given (both were its own values)
+				callerAppends(sks[skn].Seed())
+				if pk, ok := sks[skn].Public().(ed25519.PublicKey); ok {
+					for i := range pk {
+						pk[i] = 0
+					}
+				}
 				if op == "BSign" {
 					bname, cname := s["b"].(string), s["ctx"].(string)
 					e["b"], e["ctx"] = bname, cname
@@ -617,7 +632,7 @@ func genKeyBlind(c *ctx, emit func(ev)) {
 	r := newRand(c.seed, "keyblind")
 	blinds := []string{"b1", "b2", "b3", "b4", "lead0", "geN", "one", "bzero"}
 	ctxs := []string{"", "ctxA", "ctxB", "long"}
-	digests := []string{"d0", "d1", "d2", "dlong", "dlong0", "dlongf", "dord", "dord0", "dord+1", "dff", "dffo"}
+	digests := []string{"d0", "d1", "d2", "dlong", "dlong0", "dlongf", "dord", "dord0", "dord+1", "dff", "dffo", "dhuge"}
 	sks := []string{"s1", "s2", "s3"}
 	want := func(s string) bool { return c.arg == "" || strings.Contains(","+c.arg+",", ","+s+",") }
 	mkSeq := func(n int) []any {
@@ -746,7 +761,11 @@ func genKeyBlind(c *ctx, emit func(ev)) {
 		emit(ev{"op": "KSeq", "scheme": sc, "steps": structured(), "kind": "structured"})
 		emit(ev{"op": "KStress", "scheme": sc, "g": 16, "rounds": c.tierInt(400, 2000), "kind": "stress"})
 		if sc == "ed25519" {
-			emit(ev{"op": "KStress", "scheme": sc, "g": 16, "rounds": c.tierInt(6000, 125000), "kind": "stress", "volume": true})
+			vr := c.tierInt(6000, 125000)
+			if vr > 1000000 { // (16 million round trips are about two minutes on 16 cores)
+				vr = 1000000
+			}
+			emit(ev{"op": "KStress", "scheme": sc, "g": 16, "rounds": vr, "kind": "stress", "volume": true})
 		}
 		if sc == "ed25519" {
 			emit(ev{"op": "KSeq", "scheme": sc, "steps": rareEd(), "kind": "rare-inverse"})
